@@ -23,6 +23,8 @@ def setup():
     vf.tlc_gen('gen/MC_BigLen', BIG['quick'], timeout=300)
     vf.build('c06tags', ['c06tags.cpp'])
     vf.tlc_gen('gen/MC_C06tags', TAGS['quick'], timeout=1800)      # (same arguments as tags_family: the cache key includes them)
+    vf.build('c06pta', ['c06pta.cpp'])
+    vf.tlc_gen('gen/MC_C06pta', PTA['quick'], timeout=600)
 
 
 def big_lines(recs):
@@ -50,6 +52,30 @@ def big_family(rep, tier):
                       {'f': r['f'], 'shape': r['shape'], 'n': r['n'], 'route': r['route']},
                       {'head': bytes(r['head']).hex(), 'total': r['total'], 'rt': r['rt'], 'back': [r.get('back_kind'), r.get('back_size')], 'err': r.get('err'), 'derr': r.get('derr')})
     rep.coverage['long_length_traces_validated'] = v['validated']
+    return v['validated'], len(lines)
+
+
+# ---------------------------------------------------------------- string references next to typed arrays (pack_strings + use_typed_arrays)
+PTA = {'quick': 'gen/MC_C06pta_q.cfg', 'thorough': 'gen/MC_C06pta_t.cfg'}
+
+
+def pta_family(rep, tier):
+    """CBOR pack_strings together with use_typed_arrays: the byte string of a typed array counts in the stringref table (Trace_C06pta)"""
+    binary = vf.build('c06pta', ['c06pta.cpp'])
+    g = vf.tlc_gen('gen/MC_C06pta', PTA[tier], timeout=600)
+    rep.add_tlc(g[1])
+    recs = vf.run_shards(binary, g[0])
+    vf.g_triage(rep, binary, [r for r in recs if r.get('k') != 'trace'], lambda r: {'what': 'crash', 'v': 'pta %s' % json.dumps((r.get('case') or {}).get('items'))})
+    tr = sorted([r for r in recs if r.get('k') == 'trace'], key=lambda r: r['idx'])
+    lines = [json.dumps({k: v for k, v in r.items() if k not in ('k', 'idx', 'err')}) for r in tr]
+    v = vf.validate_traces('trace/Trace_C06pta', 'trace/Trace_C06pta.cfg', lines, max_fail=20, timeout=900)
+    rep.coverage['states'] += v['states']
+    rep.coverage['transitions'] += v['transitions']
+    for i in v['rejected']:
+        r = tr[i]
+        rep.violation({'format': 'cbor', 'route': 'packed+typed-arrays', 'value': 'pta %s' % ','.join(r['items']), 'enc': r['enc']},
+                      {'items': r['items'], 'fam': 'pta'}, {'bytes': bytes(r['bytes']).hex(), 'dec': r['dec'], 'back': r['back'], 'err': r.get('err')})
+    rep.coverage['packed_typed_array_traces_validated'] = v['validated']
     return v['validated'], len(lines)
 
 
@@ -219,16 +245,30 @@ def run(tier):
                    '(DOM encode, streaming encoder, pack_strings); one trace line per (value, format, route); long-length family (spec/BinHeads.tla): '
                    'text string / byte string / array / map / member name of length n in {255, 256, 32767, 32768, 65535, 65536} (thorough + 127, 128, '
                    '70000) (and an array of 400 / 1000 different strings of 100 bytes) x 4 formats x routes incl. undeclared-length streaming and encode_X to a std::ostream: the header and total size of the output must be one of the forms '
-                   'the format allows for that length, and the library must read it back')
+                   'the format allows for that length, and the library must read it back; string references next to typed arrays: every sequence of <= MaxItems items from two text strings, a short string, a byte string and typed arrays of three element kinds through the CBOR encoder with pack_strings and use_typed_arrays (Trace_C06pta)')
     cov['bounds'] = open(os.path.join(vf.SPEC, CFG[tier])).read().split('CONSTANTS')[1].split()
     cov['samples'] = [json.loads(x) for x in lines[:2]]
     tags_family(rep, tier)
+    pta_family(rep, tier)
     rep.assumptions += ['only formats listed in coverage.formats are validated in this run (the others join as their reference decoders are added to Trace_C06)']
     return rep.finish(dict(harness='c06'))
 
 
 def replay(path):
     d = json.load(open(path))
+    if d['case'].get('fam') == 'pta':   # string references next to typed arrays
+        binary = vf.build('c06pta', ['c06pta.cpp'])
+        recs = vf.run_one(binary, {'items': d['case']['items']})
+        tr = [r for r in recs if r.get('k') == 'trace']
+        lines = [json.dumps({k: v for k, v in r.items() if k not in ('k', 'idx', 'err')}) for r in tr]
+        v = vf.validate_traces('trace/Trace_C06pta', 'trace/Trace_C06pta.cfg', lines)
+        for r in tr:
+            print(','.join(r['items']), bytes(r['bytes']).hex(), 'read back:', r['dec'], r['back'])
+        if v['rejected'] or not tr:
+            print('VIOLATION property=%s replay=%s' % (PROP, path))
+            return 1
+        print('accepted by the trace spec on this tree')
+        return 0
     if 'fam' in d['case']:              # tags family
         binary = vf.build('c06tags', ['c06tags.cpp'])
         c = d['case']
